@@ -112,6 +112,12 @@ func checkStaticRefs(c *Ctx, r *gtfs.Static, m *feedModel) {
 		}
 	}
 	if acyclic {
+		beforeRoot := dumpStatic(r, staticDumpOpts{noWarnings: true})
+		defer func() {
+			if after := dumpStatic(r, staticDumpOpts{noWarnings: true}); after != beforeRoot {
+				c.Fail("root-modifies-result", "calling Stop.Root() changed the result\n%s", diffLines(beforeRoot, after))
+			}
+		}()
 		for i := range r.Stops {
 			p := &r.Stops[i]
 			for p.Parent != nil {
@@ -319,6 +325,20 @@ func c03Trips(maxRows int) Harness {
 			m.t("routes.txt").set(1, "route_id", "R1")
 		}
 		var desc []string
+		// route_sort_order values that disagree with the file order: whatever order the routes come out in,
+		// a trip leads to the route its row names
+		if n <= 1 {
+			if so := c.Free("route_sort_order", 3); so > 0 {
+				rt := m.t("routes.txt")
+				for r := range rt.Rows {
+					rt.set(r, "route_sort_order", fmt.Sprint(30-10*r))
+				}
+				if so == 2 {
+					rt.set(0, "route_sort_order", "")
+				}
+				desc = append(desc, fmt.Sprintf("sort orders descending (%d)", so))
+			}
+		}
 		for r := 0; r < n; r++ {
 			route := []string{"R1", "", "R2", "RX", "R1 "}[c.Free(fmt.Sprintf("trips[%d].route_id", r), 5)]
 			service := []string{"C1", "", "X1", "CX", " C1"}[c.Free(fmt.Sprintf("trips[%d].service_id", r), 5)]
@@ -509,6 +529,14 @@ func c03ConcatRun(c *Ctx, maxRows int) {
 // next row, dangling} and a location type out of {blank, station, entrance, boarding area}: typed
 // rows with a missing or dangling parent next to rows that others point at.
 func c03TypedStops(c *Ctx) {
+	m, desc := c03TypedStopsModel(c)
+	c.Witness("typed_stops")
+	c03WithOption = true
+	c03Run(c, m, true, desc)
+}
+
+// c03TypedStopsModel is also used by C05 (every such hierarchy, parsed with and without the inheritance option).
+func c03TypedStopsModel(c *Ctx) (*feedModel, string) {
 	m := genStaticFeedN(c, false, baseCounts, nil, nil)
 	t := m.t("stops.txt")
 	p := protoRow(t)
@@ -551,9 +579,47 @@ func c03TypedStops(c *Ctx) {
 		desc = append(desc, "last row: stop_id cell only")
 		c.Witness("row_shorter_than_the_header")
 	}
-	c.Witness("typed_stops")
-	c03WithOption = true
-	c03Run(c, m, true, "stops "+strings.Join(desc, " "))
+	return m, "stops " + strings.Join(desc, " ")
+}
+
+// c03NumericIDs: all-numeric stop ids, some equal as numbers and different as text (7, 007, 12),
+// referenced from stop_times and transfers by those spellings and by spellings that name no stop
+// (0012, 07): a reference binds to the stop whose id is the very text, or to nothing.
+func c03NumericIDs(c *Ctx) {
+	m := genStaticFeedN(c, false, baseCounts, nil, nil)
+	t := m.t("stops.txt")
+	p := protoRow(t)
+	t.Rows = nil
+	ids := []string{"7", "007", "12"}
+	for r, id := range ids {
+		t.Rows = append(t.Rows, append([]string{}, p...))
+		t.set(r, "stop_id", id)
+		t.set(r, "parent_station", "")
+		t.set(r, "location_type", "")
+	}
+	refs := []string{"7", "007", "12", "0012", "07", "7.0", "+7"}
+	var desc []string
+	st := m.t("stop_times.txt")
+	for r := range st.Rows {
+		v := ids[r%3]
+		if r < 2 {
+			v = refs[c.Free(fmt.Sprintf("stop_times[%d].stop_id", r), len(refs))]
+		}
+		st.set(r, "stop_id", v)
+		desc = append(desc, v)
+	}
+	tf := m.t("transfers.txt")
+	for r := range tf.Rows {
+		a := ids[r%2]
+		if r == 0 {
+			a = refs[c.Free("transfers[0].from", len(refs))]
+		}
+		tf.set(r, "from_stop_id", a)
+		tf.set(r, "to_stop_id", "12")
+		desc = append(desc, "tf:"+a)
+	}
+	c.Witness("numeric_ids_equal_as_numbers")
+	c03Run(c, m, true, "stops 7, 007, 12; references "+strings.Join(desc, ","))
 }
 
 func c03Growth(c *Ctx) {
@@ -595,7 +661,7 @@ func init() {
 	register(&Check{
 		ID:    "C03",
 		Level: "model_checking",
-		Rule: "full products per table: stops 0..3 rows (thorough 0..4) x stop_id {'',S1,S2,S3} x parent {'',S1,S2,S3,SX}; routes 0..3 x agency_id {'',A,B,AX} x 8 agency configurations (single, two, duplicate ids, blank ids, ids differing in case only); three stops x parent {none, previous, next, dangling} x location type {blank, 1, 2, 4} with and without the inheritance option; trips 0..2 (thorough 3) x route/service/shape alphabets x duplicate route ids; stop_times 0..2 (thorough 3) x trip {T1,'',T2,TX} x stop {S1,'',SX,S2} x duplicate trip ids; transfers 0..3 (quick 2) x from/to alphabets x duplicate stop ids; map iteration starts 0, 1, 2 applied uniformly to every library range; plus <= 2 deviations over all id / reference cells of an 18-table-row feed parent rings / rings with a tail / chains of up to 40 stops, trips over (route, service) pairs whose concatenations collide, and a growth sweep 1..40, 64, 65, 129, 257, 513, 1025 rows per table with three-level stop hierarchies throughout (parents first / children first), with and without InheritWheelchairBoarding (as the rings and chains); " +
+		Rule: "full products per table: stops 0..3 rows (thorough 0..4) x stop_id {'',S1,S2,S3} x parent {'',S1,S2,S3,SX}; routes 0..3 x agency_id {'',A,B,AX} x 8 agency configurations (single, two, duplicate ids, blank ids, ids differing in case only); stops 7 / 007 / 12 referenced as 7, 007, 12, 0012, 07, 7.0, +7; Stop.Root() must not change the result; three stops x parent {none, previous, next, dangling} x location type {blank, 1, 2, 4} with and without the inheritance option; trips 0..2 (thorough 3) x route/service/shape alphabets x duplicate route ids (<= 1 trip also x route_sort_order {as generated, descending, first blank then descending}); stop_times 0..2 (thorough 3) x trip {T1,'',T2,TX} x stop {S1,'',SX,S2} x duplicate trip ids; transfers 0..3 (quick 2) x from/to alphabets x duplicate stop ids; map iteration starts 0, 1, 2 applied uniformly to every library range; plus <= 2 deviations over all id / reference cells of an 18-table-row feed parent rings / rings with a tail / chains of up to 40 stops, trips over (route, service) pairs whose concatenations collide, and a growth sweep 1..40, 64, 65, 129, 257, 513, 1025 rows per table with three-level stop hierarchies throughout (parents first / children first), with and without InheritWheelchairBoarding (as the rings and chains); " +
 			"non-trivial = distinct archives with at least two rows in the table under study (or any deviation); oracle = pointer-identity / named-id / forest invariants",
 		Assumptions: []string{"each result entity is traced to its row through a free-text column carrying the row number", "a route that names no agency may be linked only when there is exactly one agency"},
 		Scenarios: func(tier string) []*Scenario {
@@ -611,6 +677,7 @@ func init() {
 				{Name: "transfers-product", Bound: -1, Run: c03Transfers(tf)},
 				{Name: "cross-table", Bound: 2, Run: c03Cross},
 				{Name: "typed-stops", Bound: -1, Run: c03TypedStops},
+				{Name: "numeric-ids", Bound: -1, Run: c03NumericIDs},
 				{Name: "rings-and-chains", Bound: -1, Run: c03Rings},
 				{Name: "colliding-concatenations", Bound: -1, Run: c03Concat(tr)},
 				{Name: "growth-sweep", Bound: -1, Run: c03Growth},
